@@ -113,11 +113,34 @@ def observe(ctx, batches):
         if b.allfaults:
             args += ['-allfaults']
         obsfiles += vlib.run_worker(ctx, 'expander', cases, args, prefix='exp%d' % i)
-    return obsfiles
+    # one oracle process per core: merge the per-batch shards
+    k = vlib.NCPU
+    merged = [ctx.path('merged_%d_obs.%d.ndjson' % (vlib._meta[0], j)) for j in range(min(k, len(obsfiles)))]
+    vlib._meta[0] += 1
+    outs = [(open(m, 'wb'), open(m + '.slim', 'wb')) for m in merged]
+    sizes = [0] * len(merged)
+    for f in sorted(obsfiles, key=lambda x: -os.path.getsize(x)):
+        j = sizes.index(min(sizes))
+        sizes[j] += os.path.getsize(f)
+        with open(f, 'rb') as r:
+            shutil.copyfileobj(r, outs[j][0])
+        with open(f + '.slim', 'rb') as r:
+            shutil.copyfileobj(r, outs[j][1])
+        os.remove(f)
+        os.remove(f + '.slim')
+    for a, b in outs:
+        a.close()
+        b.close()
+    return [m for m in merged if os.path.getsize(m) > 0]
 
 
-def judge(ctx, obsfiles):
-    return vlib.run_oracle(ctx, 'ExpOracle', obsfiles)
+ALL_PREDS = ['c02', 'c03cut', 'c03free', 'c03det', 'c03form', 'c04', 'c04work', 'conf', 'c18step', 'c08noerr', 'c08err', 'c08contok',
+             'c08contbisim', 'c08contcut', 'c09keep', 'c09defs', 'c09form', 'c09then', 'c10root', 'c10opts', 'c18never', 'c18once', 'c18key']
+
+
+def judge(ctx, obsfiles, preds=None):
+    want = sorted(set(preds or ALL_PREDS) | {'conf'})
+    return vlib.run_oracle(ctx, 'ExpOracle', obsfiles, consts={'Preds': '{%s}' % ', '.join('"%s"' % p for p in want)})
 
 
 def brief(o, v):
@@ -145,7 +168,7 @@ def seeded(ctx):
     return {'rot': s % 12, 'names': 'special' if s % 2 == 0 else 'plain', 'spell': 'varied' if s % 3 == 0 else 'simple'}
 
 
-def confirm_crashes(ctx, pairs):
+def confirm_crashes(ctx, pairs, preds=None):
     """A case on which the child process died or hung is run once more, alone, with a generous
     watchdog, before anything is reported (a loaded machine must not raise an alarm)."""
     listed = {f['id'] for f in vlib.load_findings() if f.get('status', 'open') == 'open' and ctx.prop in f.get('properties', [])}
@@ -162,7 +185,7 @@ def confirm_crashes(ctx, pairs):
                                 'entry': o['entry'] or 'ExpandSpec', 'reps': 1, 'failurl': o['failurl'], 'preload': o['preload'],
                                 'names': o.get('names') or 'plain', 'spell': o.get('spell') or 'simple', 'cache': o.get('cache') or 'none'}) + '\n')
     obsfiles = vlib.run_worker(ctx, 'expander', f, ['-watchdog', '30s'], shards=min(8, len(crashed)), prefix='confirm')
-    again = judge(ctx, obsfiles)
+    again = judge(ctx, obsfiles, preds)
     log('[confirm] %d crashed cases re-run alone: %d crash again' % (len(crashed), sum(1 for o, v in again if o['outcome'] in ('timeout', 'fatal'))))
     key = lambda o: json.dumps([o['abstract'], o['layout'], o['rot'], o['opts'], o['entry'], o['failurl']], sort_keys=True)
     redo = {key(o): (o, v) for o, v in again}
@@ -186,7 +209,7 @@ def run_batches(ctx, batches, preds, mc_runs, nontrivial=lambda o, v: True, samp
     for (genset, cont, skip, label) in mc_runs:
         mc_expander(ctx, gen(ctx, *genset), cont, skip, label)
     obsfiles = observe(ctx, batches)
-    pairs = confirm_crashes(ctx, judge(ctx, obsfiles))
+    pairs = confirm_crashes(ctx, judge(ctx, obsfiles, preds), preds)
     rep = vlib.Report(ctx)
     drift = 0
     for o, v in pairs:
